@@ -5,13 +5,17 @@ import json, glob, os, re
 ROOT = os.path.dirname(os.path.dirname(os.path.abspath(__file__)))
 out = []
 out.append("## 7. Sensitivity: which checks catch which changes\n")
-out.append("### 7.1 Independently seeded changes (`/verif/seeded/<ID>/<A|B>/`)\n")
+out.append("### 7.1 Independently seeded changes (`/verif/seeded/<ID>/<A..F>/`)\n")
 out.append("Each was written by a fresh helper that saw only the property text and a scratch worktree of /repo (nothing from /verif), "
            "asked for a change that still compiles and passes the 156 tests but needs something specific to manifest. "
            "I confirmed each in a scratch worktree (`tools/seedrun.py`: patch applies, suite passes with it, the demo fails with it and passes without it) "
            "and then ran the checks against a private copy of /repo with the patch applied (never committed to /repo).\n")
-out.append("| seed | what it breaks / what it needs | owning check (quick) | caught by |")
-out.append("|---|---|---|---|")
+out.append("Rounds: A,B = first round (any realistic change); C,D = second round (asked for narrow triggers: magic lengths, three features at once, "
+           "state carried between calls, two sites that each look fine); E,F = third round (told what A-D did, asked for a different mechanism). "
+           "Column *first run* is the owning check as it was when the seed arrived; *final* is `tools/seedfinal.py`: every stored seed re-applied to a private copy of /repo's final HEAD "
+           "and checked by the final harness (owner first, the other checks only when it misses).\n")
+out.append("| seed | what it breaks / what it needs | owning check, first run (quick) | owning check, final | other checks that caught it |")
+out.append("|---|---|---|---|---|")
 for d in sorted(glob.glob(os.path.join(ROOT, "seeded", "C*", "*"))):
     mp = os.path.join(d, "meta.json")
     if not os.path.exists(mp):
@@ -26,7 +30,20 @@ for d in sorted(glob.glob(os.path.join(ROOT, "seeded", "C*", "*"))):
     others = ", ".join(k for k in hit if k != pid) or ("-" if owner else "none")
     summ = (m.get("summary") or "").replace("\n", " ").replace("|", "/")
     need = (m.get("needs_to_manifest") or "").replace("\n", " ").replace("|", "/")
-    out.append(f"| {pid}/{x} | {summ[:260]} **Needs:** {need[:220]} | {own} | {others} |")
+    fp = m.get("final_pass") or {}
+    fhit = {k: v for k, v in (fp.get("detected_by_quick") or {}).items() if isinstance(v, dict) and "signatures" in v}
+    if not fp:
+        fin = "(not re-run)"
+    elif fp.get("owner_detects"):
+        fin = "**yes** " + "; ".join(s.strip() for s in fhit[pid]["signatures"][:2])
+    elif m.get("out_of_scope"):
+        fin = "no - " + m["out_of_scope"]
+    else:
+        fin = "**no**" + (" (build failed)" if fp.get("harness_build") else "")
+    for k in fhit:
+        if k != pid and k not in others:
+            others = (others + ", " + k) if others not in ("-", "none") else k
+    out.append(f"| {pid}/{x} | {summ[:260]} **Needs:** {need[:220]} | {own} | {fin} | {others} |")
 out.append("")
 mr = os.path.join(ROOT, "tools", "mutant_results.jsonl")
 if os.path.exists(mr):
